@@ -1,5 +1,5 @@
 CONSTANTS
-  VKinds = {"boxed", "retry", "owned", "pois"}
+  VKinds = {"boxed", "retry", "owned", "ref", "pois"}
   VMaxN = 3
   VMaxOps = 1
 INIT VInit
